@@ -19,7 +19,7 @@ func init() { register("C17", checkC17) }
 const pkgEVM = "ctrlers/vm/evm"
 
 func checkC17(w *World, r *Report) {
-	r.Explanation = "Structural clause of C17 (the synchronisation protocol between go-ethereum's StateDB and the native account ledger; equivalence with the reference EVM over all programs is out of reach): (E-0) every vm.StateDB method of the wrapper delegates to the same-named method of the embedded StateDB with its arguments in order, and the block context's CanTransfer/Transfer are balance >= amount / debit sender + credit recipient of the same amount; (E-1) every way an address enters the access list (AddAddressToAccessList, PrepareAccessList for sender, destination, precompiles and listed addresses; Prepare for sender and receiver) first copies nonce and balance from the native account (FindOrNewAccount(addr, exec)) into the state object and records the address with the current snapshot + 1; (E-2) Finish writes balance and nonce of every recorded address back and marks the account, then forgets the addresses; RevertToSnapshot forgets the addresses recorded after that snapshot before delegating; Snapshot records and returns the id; (E-3) failures revert to the pre-transaction snapshot (C05 A-4); (E-4) contract transactions and transfers to accounts with code are routed to the EVM (decision table); (E-5) the read-only call runs on a scratch state at the requested height with the immutable account handler and cannot reach a durable write; the per-block wrapper is built on the last committed root with the block's account handler; (E-7) the block's gas pool is filled once, when it is created, and after that only go-ethereum's message application takes from it or gives back to it; (E-6) the native (precompiled) contracts the module registers never write through their input: the interpreter hands them a window of the calling contract's memory."
+	r.Explanation = "Structural clause of C17 (the synchronisation protocol between go-ethereum's StateDB and the native account ledger; equivalence with the reference EVM over all programs is out of reach): (E-0) every vm.StateDB method of the wrapper delegates to the same-named method of the embedded StateDB with its arguments in order, and the block context's CanTransfer/Transfer are balance >= amount / debit sender + credit recipient of the same amount; (E-1) every way an address enters the access list (AddAddressToAccessList, PrepareAccessList for sender, destination, precompiles and listed addresses; Prepare for sender and receiver) first copies nonce and balance from the native account (FindOrNewAccount(addr, exec)) into the state object and records the address with the current snapshot + 1; (E-2) Finish writes balance and nonce of every recorded address back and marks the account, then forgets the addresses; RevertToSnapshot forgets the addresses recorded after that snapshot before delegating; Snapshot records and returns the id; (E-3) failures revert to the pre-transaction snapshot (C05 A-4); (E-4) contract transactions and transfers to accounts with code are routed to the EVM (decision table); (E-5) the read-only call runs on a scratch state at the requested height with the immutable account handler and cannot reach a durable write; the per-block wrapper is built on the last committed root with the block's account handler; (E-7) the block's gas pool is filled once, when it is created, and after that only go-ethereum's message application takes from it or gives back to it; (E-6) the native (precompiled) contracts the module registers never write through their input: the interpreter hands them a window of the calling contract's memory. (E-8) every successful return of ExecuteTrx behind the message application has read the state's logs of this transaction (they are reported as the evm event)."
 	r.NotCovered = "equivalence with the reference EVM for all programs; go-ethereum internals; accounts the EVM touches without adding them to the access list (pre-Berlin rules are not active)."
 	e0(w, r)
 	e1(w, r)
@@ -43,6 +43,8 @@ func checkC17(w *World, r *Report) {
 	e5(w, r)
 	e6(w, r)
 	e7(w, r)
+	e8(w, r)
+	r.Floor("E-8", 1, "logs reported")
 	r.Floor("E-0", 24, "delegating methods")
 	r.Floor("E-1", 6, "sync-in")
 	r.Floor("E-2", 5, "sync-out")
@@ -854,4 +856,62 @@ func isFieldGetter(fn *ssa.Function) bool {
 		}
 	}
 	return true
+}
+
+// e8 — what a contract execution logged is reported with the transaction: the
+// conversion of the state's logs of this transaction into the `evm` event is the
+// only way they leave the node. Every successful return of ExecuteTrx that lies
+// behind the message application has passed GetLogs for this transaction's hash
+// (a deployment's constructor logs included).
+func e8(w *World, r *Report) {
+	fn := needFn(r, "E-8", w, fref{pkgEVM, "EVMCtrler", "ExecuteTrx"})
+	if fn == nil {
+		return
+	}
+	var ex, gl ssa.CallInstruction
+	for _, c := range CallsIn(fn) {
+		switch callName(c.Common()) {
+		case "execVM":
+			ex = c
+		case "GetLogs":
+			if cs := w.canonCall(c.Common(), 0); strings.HasPrefix(cs, "recv.stateDBWrapper.") && strings.Contains(cs, "GetLogs(p0.TxHash") {
+				gl = c
+			}
+		}
+	}
+	if gl == nil {
+		// the conversion in a helper ExecuteTrx calls: the helper's call stands for it
+		for _, hc := range CallsIn(fn) {
+			g := hc.Common().StaticCallee()
+			if g == nil || !w.InModule(g) || g.Blocks == nil || g.Name() == "execVM" {
+				continue
+			}
+			for _, c2 := range CallsIn(g) {
+				c2 := c2
+				if callName(c2.Common()) == "GetLogs" && w.inCallerTerms(fn, g, func() bool {
+					cs := w.canonCall(c2.Common(), 0)
+					return strings.Contains(cs, "stateDBWrapper.") && strings.Contains(cs, "GetLogs(p0.TxHash")
+				}) {
+					gl = hc
+				}
+			}
+		}
+	}
+	if ex == nil {
+		r.Undecided("E-8", "ExecuteTrx:logs-reported", "the message application (execVM) was not found in ExecuteTrx")
+		return
+	}
+	bad := ""
+	if gl == nil {
+		bad = "the logs of this transaction are never read"
+	} else {
+		start := posOf(ex.(ssa.Instruction))
+		start.i++
+		for _, e := range exitsAvoiding(start, func(in ssa.Instruction) bool { return in == ssa.Instruction(gl.(ssa.Instruction)) }, nil) {
+			if ret, isR := e.(*ssa.Return); isR && w.errState(ret) != triNonNil {
+				bad = "the successful return at " + w.InstrPos(ret) + " does not pass the conversion of the transaction's logs"
+			}
+		}
+	}
+	r.Check(bad == "", "E-8", "ExecuteTrx:logs-reported", "every successful return behind the message application has read the state's logs of this transaction (they become the evm event)", "a successful contract execution can return without reporting its logs (the reference EVM produces them; state, gas and balances still agree): "+bad, fnSite(w, fn))
 }
